@@ -109,7 +109,9 @@ let run_array toks =
              end
            done;
            (match !last with Some x -> add (" S" ^ zs x) | None -> add " N");
-           add (" L" ^ zs (vlen v !s))) (S.split_on_char ',' ops))
+           add (" L" ^ zs (vlen v !s)))
+         (* "c": the history continues on a clone of the iterator - in the model a state is a value, its copy is itself *)
+         (List.filter (fun op -> op <> "c") (S.split_on_char ',' ops)))
   (* View::to_array: the model's [view_to_array], then [get] at every index of the copy and the copy's own views *)
   | ["toarray"; sh; a; i] ->
     (match get_axis (ramp (parse_list sh)) (ZA.of_string a) (ZA.of_string i) with
@@ -385,6 +387,12 @@ let run_stream toks =
     (match write_pieces (npy_pieces (parse_list sh) (parse_bits_list bits)) (mk_writer (parse_list wsched) (parse_opt wfail)) with
      | Inl w -> add ("OK " ^ hex_of_bytes w.accepted)
      | Inr _ -> add "ERR")
+  (* frames OFFSET HEX : the record region (from OFFSET on) of an uncompressed BCF stream cut into records by the model of the
+     repaired reader (Model/Frames.v): how many records are read, and whether the stream then ends cleanly (D) or not (E) *)
+  | ["frames"; off; hex] ->
+    let rec drop n l = if n <= 0 then l else (match l with [] -> [] | _ :: t -> drop (n - 1) t) in
+    let (n, ok) = count_frames (drop (int_of_string off) (bytes_of_hex hex)) in
+    add (zs n ^ (if ok then " D" else " E"))
   | _ -> add "BAD-CASE"
 
 let run_case line =
@@ -398,7 +406,7 @@ let run_case line =
      | "npyw" | "npyr" | "textw" | "read" | "fmt" | "parse" | "detect" -> run_bytes toks
      | "classify" | "sites" | "create" | "smapfile" | "genosm" | "genosv" -> run_create toks
      | "stat" | "viewrun" -> run_stat toks
-     | "cnpy" | "cwrite" -> run_stream toks
+     | "cnpy" | "cwrite" | "frames" -> run_stream toks
      | _ -> add ("UNKNOWN-OP " ^ op))
 
 let () =
